@@ -11,6 +11,8 @@ mod hot;
 mod thr;
 mod cb;
 mod mgr;
+mod tow;
+mod cfg;
 pub mod util;
 
 fn main() {
@@ -29,6 +31,8 @@ fn main() {
         "thr" => thr::run_case,
         "cb" => cb::run_case,
         "mgr" => mgr::run_case,
+        "tow" => tow::run_case,
+        "cfg" => cfg::run_case,
         p => {
             eprintln!("unknown property {}", p);
             std::process::exit(2);
